@@ -381,6 +381,92 @@ theorem run_then_rebuild_fresh (w0 : World) (h0 : ∀ r ∈ w0, r.ri.firstBuild 
       obtain ⟨B, ignB, hinv⟩ := inv_run evs (inv_fresh w0 h0 ign) hc h1
       exact (inv_rebuild hinv ign arrivals h2).2
 
+/-! ## the configuration in force -/
+
+theorem config_setObj (r : RankW) (o : Nat) (x : IdxObj) : (r.setObj o x).config = r.config := by
+  obtain ⟨_, h2, h3, h4, h5⟩ := setObj_fields r o x
+  simp [RankW.config, h2, h3, h4, h5]
+
+theorem rebuild_config {w w' : World} {ign : Bool} {arrivals : Nat → List Nat} (hr : w.rebuild ign arrivals = some w') :
+    w'.length = w.length ∧ ∀ p, p < w.length → (w'.getD p default).config = (w.getD p default).config := by
+  unfold World.rebuild at hr
+  split at hr
+  · cases hr; exact ⟨rfl, fun _ _ => rfl⟩
+  · split at hr
+    · split at hr
+      · cases hr
+      · cases hr
+        refine ⟨by simp, fun p hp => ?_⟩
+        simp only [List.getD_eq_getElem?_getD, List.getElem?_mapIdx, List.getElem?_eq_getElem hp, Option.map_some,
+          Option.getD_some]
+        rfl
+    · cases hr
+
+/-- one event: the number of ranks stays, and the configuration of every rank changes as `Config.step` says -/
+theorem step_config {w w' : World} (e : Ev) (hs : w.step e = some w') :
+    w'.length = w.length ∧
+    ∀ p, p < w.length → (w'.getD p default).config = Config.step p (w.getD p default).config e := by
+  cases e with
+  | resize q o pairs =>
+    cases hs
+    refine ⟨modify_length _ _ _, fun p hp => ?_⟩
+    rw [modify_getD _ _ _ _ hp]
+    by_cases h : p = q
+    · simp only [h, if_true, Config.step]; exact config_setObj _ _ _
+    · simp only [h, if_false, Config.step]
+  | rebuild ign arrivals => exact rebuild_config hs
+  | free q =>
+    cases hs
+    refine ⟨modify_length _ _ _, fun p hp => ?_⟩
+    rw [modify_getD _ _ _ _ hp]
+    by_cases h : p = q
+    · simp only [h, if_true, Config.step]; rfl
+    · simp only [h, if_false, Config.step]
+  | setSets q s t hints =>
+    cases hs
+    refine ⟨modify_length _ _ _, fun p hp => ?_⟩
+    rw [modify_getD _ _ _ _ hp]
+    by_cases h : p = q
+    · subst h; simp only [if_true, Config.step]; rfl
+    · have h' : ¬ q = p := fun e => h e.symm
+      simp only [h, h', if_false, Config.step]
+  | setIncl q b =>
+    cases hs
+    refine ⟨modify_length _ _ _, fun p hp => ?_⟩
+    rw [modify_getD _ _ _ _ hp]
+    by_cases h : p = q
+    · subst h; simp only [if_true, Config.step]; rfl
+    · have h' : ¬ q = p := fun e => h e.symm
+      simp only [h, h', if_false, Config.step]
+  | setNb q hints =>
+    cases hs
+    refine ⟨modify_length _ _ _, fun p hp => ?_⟩
+    rw [modify_getD _ _ _ _ hp]
+    by_cases h : p = q
+    · subst h; simp only [if_true, Config.step]; rfl
+    · have h' : ¬ q = p := fun e => h e.symm
+      simp only [h, h', if_false, Config.step]
+
+/-- a whole history: every rank ends with the configuration of the last calls addressed to it -/
+theorem run_config : ∀ (evs : List Ev) {w w' : World}, World.run w evs = some w' →
+    w'.length = w.length ∧
+    ∀ p, p < w.length → (w'.getD p default).config = Config.after p (w.getD p default).config evs
+  | [], w, w', hr => by cases hr; exact ⟨rfl, fun _ _ => rfl⟩
+  | e :: es, w, w', hr => by
+    unfold World.run at hr
+    cases hs : w.step e with
+    | none => simp [hs] at hr
+    | some w1 =>
+      simp only [hs, Option.bind_some] at hr
+      obtain ⟨hl1, hc1⟩ := step_config e hs
+      obtain ⟨hl2, hc2⟩ := run_config es hr
+      refine ⟨hl2.trans hl1, fun p hp => ?_⟩
+      rw [hc2 p (hl1 ▸ hp), hc1 p hp]
+      rfl
+
+theorem nbIds_nil_of_hints {d : RankData} (h : d.hints = []) (p : Nat) : nbIds d p = [] := by
+  simp [nbIds, h]
+
 /-! ## staleness at world level -/
 
 theorem obj_setObj' (r : RankW) (o : Nat) (x : IdxObj) (i : Nat) :
